@@ -17,7 +17,8 @@ import (
 // init before anything is appended.
 func (h H) leaderCommitRule(rule string) {
 	h.onlyCallers(rule+" who-may-call", "raft:(*leader).setCommitIndex", "(*leader).onMajorityCommit")
-	h.onlyCallers(rule+" who-may-call", "raft:(*Raft).setCommitIndex", "(*leader).setCommitIndex", "(*Raft).onAppendEntriesRequest")
+	h.onlyCallers(rule+" who-may-call", "raft:(*Raft).setCommitIndex", "(*leader).setCommitIndex", "(*Raft).onAppendEntriesRequest", "(*Raft).onInstallSnapRequest")
+	h.installCommitsWhatItKeeps(rule + " install-commit")
 	omc := h.fn("raft:(*leader).onMajorityCommit")
 	lsc := h.fn("raft:(*leader).setCommitIndex")
 	mmi := h.fn("raft:(*leader).majorityMatchIndex")
@@ -290,4 +291,69 @@ func calleeLabelOf(ci ssa.CallInstruction) string {
 		return f.Name()
 	}
 	return "dynamic"
+}
+
+// installCommitsWhatItKeeps: the install handler is the third place that
+// moves the commit index. Where it keeps its log (the log holds the snapshot's
+// last entry with the same term) the entries up to the snapshot index are
+// committed: it commits exactly that index — above the old commit index by
+// the stale-snapshot guard — hands the entries to the state machine and waits
+// for it, and only then compacts (F22). Whatever it does to the log (compact
+// or discard) happens after a round trip through the state machine's queue,
+// so that no queued apply request still reads the segments being closed (F20).
+func (h H) installCommitsWhatItKeeps(rule string) {
+	fn := h.fn("raft:(*Raft).onInstallSnapRequest")
+	fi := h.P.Info(fn)
+	sci := h.fn("raft:(*Raft).setCommitIndex")
+	ac := h.fn("raft:(*Raft).applyCommitted")
+	la := h.fn("raft:(*Raft).lastApplied")
+	cl := h.fn("raft:(*Raft).compactLog")
+	clr := h.fn("raft:(*storage).clearLog")
+	isSnapIdx := func(s string) bool { return strings.Contains(s, "(*snapshotSink).done(") && strings.HasSuffix(s, "#0.index") }
+	newer := core.MkAtom("installSnapReq.lastIndex", ">", "Raft.commitIndex")
+	commits := h.P.CallsTo(fn, sci)
+	for k, c := range commits {
+		site := h.site(fn, sci, k)
+		arg := h.argStr(c, 1)
+		h.C.Check(rule+" commits-snapshot-index", site, isSnapIdx(arg), h.pos(c), "the install handler may commit only the published snapshot's index; found "+core.Short(arg, 160))
+		h.gateLoose(rule+" only-forward", site, c, newer)
+		r := fi.MustCross(c.(ssa.Instruction), func(a core.Atom) bool {
+			return a.Op == "==" && (strings.HasSuffix(a.L, "#0.term") && strings.Contains(a.R, "(*storage).getEntryTerm(") || strings.HasSuffix(a.R, "#0.term") && strings.Contains(a.L, "(*storage).getEntryTerm("))
+		})
+		h.C.Check(rule+" only-when-log-matches", site, r.OK, h.pos(c), "the install handler commits the snapshot index although its own entry at that index may have another term: "+r.Witness)
+	}
+	// F22: compaction in the handler only after commit -> apply -> wait
+	nC := 0
+	for k, c := range h.P.CallsTo(fn, cl) {
+		nC++
+		site := h.site(fn, cl, k)
+		ok := false
+		for _, s := range commits {
+			if h.argStr(s, 1) != h.argStr(c, 1) || !core.Dominates(s.(ssa.Instruction), c.(ssa.Instruction)) {
+				continue
+			}
+			for _, a := range h.P.CallsTo(fn, ac) {
+				if !core.Dominates(s.(ssa.Instruction), a.(ssa.Instruction)) {
+					continue
+				}
+				for _, w := range h.P.CallsTo(fn, la) {
+					if core.Dominates(a.(ssa.Instruction), w.(ssa.Instruction)) && core.Dominates(w.(ssa.Instruction), c.(ssa.Instruction)) {
+						ok = true
+					}
+				}
+			}
+		}
+		h.C.Check(rule+" applied-before-compacted", site, ok, h.pos(c), "the install handler compacts entries away that the state machine may not have applied: setCommitIndex(snapshot index), applyCommitted and a wait for the state machine (lastApplied) must precede compactLog of that index")
+	}
+	h.C.Floor(rule+" (compactLog in the install handler)", nC, 1)
+	// F20: the state machine's queue is drained before segments are closed
+	nB := 0
+	for _, spec := range []*ssa.Function{cl, clr} {
+		for k, c := range h.P.CallsTo(fn, spec) {
+			nB++
+			r := fi.PrecededBy(c.(ssa.Instruction), func(in ssa.Instruction) bool { return h.P.IsCallTo(in, la) })
+			h.C.Check(rule+" state-machine-drained", h.site(fn, spec, k), r.OK, h.pos(c), "the log is reset or compacted while apply requests that read its segments may still be queued for the state machine: "+r.Witness)
+		}
+	}
+	h.C.Floor(rule+" (log resets/compactions in the install handler)", nB, 2)
 }
